@@ -48,13 +48,46 @@ def nontrivial(r):
     return bool(f.get("records>=4") and f.get("contexts>=3"))
 
 
+def gen_with_opaque_input(rng, fam):
+    """The same definitions with one more runtime input whose value is not JSON (a datetime): the engine's copies of
+    contexts then go through its fallback path.  Engine-only (the JSON model cannot hold the value)."""
+    import datetime
+    d, inputs = progs.gen_definition(rng, fam)
+    d["input"] = list(d.get("input") or []) + ["started_at"]
+    inputs = dict(inputs, started_at=datetime.datetime(2020, 1, 2, 3, 4, 5))
+    return d, inputs
+
+
 def run(ctx):
-    return common.conductor_run(
+    out = common.conductor_run(
         ctx, "C18", FAM, common.project_full, monitors.c18, features, nontrivial, 500, 6000,
         rule="generated definitions weighted to multi-referenced tasks, joins, with-items, loops and retries with random "
              "histories; non-trivial = at least 4 execution records and 3 context snapshots; distinct = distinct "
              "(definition, operation list)")
+    # engine-only batch with a non-JSON runtime input (monitor c18 + the aliasing detector; no model)
+    n = 150 if ctx["tier"] == "quick" else 1500
+    base = (ctx["seed"] * 7919 + 13) % (2 ** 31)
+    cfg = {"fam": FAM, "project": common.project_full, "monitor": monitors.c18, "features": features,
+           "gen": gen_with_opaque_input, "history": progs.run_history, "known_ids": [], "alias_check": True}
+    res = common.run_cases([base + i for i in range(n)], False, cfg)
+    out["engine_only_cases_with_non_json_input"] = len(res)
+    for r in res:
+        for v in r.get("violations", []):
+            v = dict(v)
+            v.update({"property": "C18", "seed": r["seed"], "definition": r["definition"],
+                      "inputs": {k: str(x) for k, x in (r.get("inputs") or {}).items()}, "non_json_input": True})
+            if "ops" not in v:
+                v["ops"] = r["ops"][: v.get("step", len(r["ops"]) - 1) + 1]
+            out["violations"].append(v)
+        if r.get("error"):
+            out["violations"].append({"property": "C18", "what": "harness error in the non-JSON batch",
+                                      "error": r["error"][-600:], "seed": r["seed"]})
+            break
+    return out
 
 
 def replay(payload):
+    if payload.get("non_json_input") and isinstance(payload.get("inputs"), dict):
+        import datetime
+        payload = dict(payload, inputs=dict(payload["inputs"], started_at=datetime.datetime(2020, 1, 2, 3, 4, 5)))
     return common.replay_conductor(payload, monitors.c18)
